@@ -107,13 +107,16 @@ pub fn print(e: &Value, prec: u8, out: &mut String) {
             }
         }
         "grp" => {
-            match e.get("name").and_then(|v| v.as_str()) {
-                Some(name) if !name.is_empty() => {
-                    out.push_str("(?<");
-                    out.push_str(name);
-                    out.push('>')
+            // a named group is always called x1, x11, x111, ... (x followed by n ones), so that printer and
+            // specification derive the name from the group number
+            if e.get("named").and_then(|v| v.as_bool()).unwrap_or(false) {
+                out.push_str("(?<x");
+                for _ in 0..n(e, "n") {
+                    out.push('1')
                 }
-                _ => out.push('('),
+                out.push('>')
+            } else {
+                out.push('(')
             }
             print(&e["x"], 0, out);
             out.push(')')
